@@ -280,6 +280,7 @@ def exit_rule(chk, db, floor=6):
 META_EXTRA = 'NULFREE; EXIT; pointer-formation obligations and counting-loop reachability in BOUND; W-TRAITS (char_traits vs std::char_traits at boundary characters); PARAM.'
 META = (META[0] + " " + META_EXTRA, META[1])
 META = (META[0] + ' SIB; IT4i; RESUME (pattern searches, including etl::search / etl::find_end, move their candidate by one).', META[1])
+META = (META[0] + " RWINDOW (rfind's prologue evaluated over (pos, n, size) models: the prefix handed to the backward scan); PTRCOUNT over char_traits.", META[1])
 
 
 def run(chk, tier):
